@@ -125,6 +125,44 @@ static uint32_t crc32_of(const unsigned char* b, size_t n)
 // the deterministic byte pattern of mkfbig / writebig (the drivers and the judge have the same one)
 static unsigned char pat(long seed, size_t i) { return (unsigned char)((seed * 17 + (long)i * 131 + (long)(i >> 8) * 7 + (long)(i >> 16) * 3) & 255); }
 
+// A file beyond SPARSE_LIMIT bytes (made by seeking far behind the end: offsets that need more than 32 bits cost no
+// content) is not read as a whole: it is shown as ##<size>.<crc32 over (offset as 8 bytes little-endian, byte) of every
+// non-zero byte in offset order>, found by walking the data extents (SEEK_DATA / SEEK_HOLE).  The judge computes the
+// same from the writes it has seen.
+static const off_t SPARSE_LIMIT = (off_t)1 << 26;
+static void render_sparse(char* dst, const char* path, off_t size)   // appends to dst
+{
+  uint32_t c = 0xffffffffu;
+  int fd = open(path, O_RDONLY | O_NOFOLLOW);
+  if(fd >= 0) {
+    static unsigned char buf[65536];
+    off_t off = 0;
+    for(;;) {
+      off_t d = lseek(fd, off, SEEK_DATA);
+      if(d < 0) break;
+      off_t h = lseek(fd, d, SEEK_HOLE);
+      if(h < 0) h = size;
+      for(off_t p = d; p < h; ) {
+        size_t want = (size_t)(h - p) < sizeof(buf) ? (size_t)(h - p) : sizeof(buf);
+        ssize_t k = pread(fd, buf, want, p);
+        if(k <= 0) { p = h; break; }
+        for(ssize_t i = 0; i < k; ++i)
+          if(buf[i]) {
+            unsigned char rec[9]; uint64_t o = (uint64_t)(p + i);
+            for(int j = 0; j < 8; ++j) rec[j] = (unsigned char)(o >> (8 * j));
+            rec[8] = buf[i];
+            for(int j = 0; j < 9; ++j) { c ^= rec[j]; for(int b = 0; b < 8; ++b) c = (c >> 1) ^ (0xedb88320u & (0u - (c & 1u))); }
+          }
+        p += k;
+      }
+      off = h;
+      if(off >= size) break;
+    }
+    close(fd);
+  }
+  sprintf(dst + strlen(dst), "##%lld.%08x", (long long)size, (unsigned)~c);
+}
+
 static size_t render_len(size_t n) { return n <= 128 ? 2 * n + 2 : 40; }
 static void render(char* dst, const unsigned char* b, size_t n)     // appends to dst
 {
@@ -195,6 +233,9 @@ static void snap_walk(const char* abs, const char* rel, bool collect)
       if(n < 0) n = 0;
       line = (char*)malloc(strlen(r2) + render_len((size_t)n) + 16); sprintf(line, "%s%s:l:", inside ? "" : "!", shown);
       render(line, (const unsigned char*)t, (size_t)n);
+    } else if(sb.st_size > SPARSE_LIMIT) {
+      line = (char*)malloc(strlen(r2) + 80); sprintf(line, "%s%s:f:", inside ? "" : "!", shown);
+      render_sparse(line, a2, sb.st_size);
     } else {
       size_t cap = (size_t)sb.st_size + 1; unsigned char* buf = (unsigned char*)malloc(cap);
       size_t n = 0;
